@@ -24,7 +24,8 @@ BOUNDS = {
     "thorough": dict(members="400 seeded lists of 2..3 members over 9 kinds (histories of length 4), 120 lists of 4 (length 3), 60 lists of 5..6 (length 2)", stream="10 symbolic bytes (8 for >= 4 members)", access="as quick"),
 }
 OUTSIDE = ["Lazy(x) over a field whose size cannot be determined without parsing it (VarInt): raises SizeofError by design",
-           "cross references between members of a LazyStruct (documented restriction)", "members whose size depends on _index", "negative indices into LazyListContainer"]
+           "cross references between members of a LazyStruct (documented restriction)", "members whose size depends on _index", "negative indices into LazyListContainer",
+           "list methods of a LazyArray result beyond indexing, slicing, iteration, len, ==, != and `in` (index, count, reversed, +, copy operate on the empty underlying list)"]
 ASSUMPTIONS = ["oracle: the eager Struct/Array of the same library"]
 
 MEMBERS = {
@@ -153,6 +154,10 @@ def harness(ctx, C, p):
         it = api.outcome(lambda: list(iter(obj)))
         ctx.check("iteration returns the eager elements", it.ok and ctx.fork(ctx.eq(it.value, list(re_.value))))
         ctx.check("stream still in place after slicing and iteration", sl.tell() == end)
+        e1, e3 = api.outcome(lambda: obj == list(re_.value)), api.outcome(lambda: obj != list(re_.value))
+        ctx.check("the lazy list compares equal to the eager elements and != agrees with ==", e1.ok and e3.ok and bool(ctx.fork(e1.value)) and not bool(ctx.fork(e3.value)))
+        m = api.outcome(lambda: re_.value[0] in obj)
+        ctx.check("membership test sees the elements", m.ok and bool(ctx.fork(m.value)))
         be, bl = api.outcome(eager.build, re_.value, n=kwn), api.outcome(lazy.build, obj, n=kwn)
         ctx.check("building from the lazy result equals building from the eager result", be.ok == bl.ok and (not be.ok or ctx.fork(ctx.eq(be.value, bl.value))))
         return "ok"
